@@ -201,6 +201,26 @@ ADDED2 = {
  "C19": "Rounds 6-7: metadata round trip.",
  "C20": "Rounds 6-7 (level other): Image.slice folded per dimension and letter (reduction axis and data subscript against the table); AxisReduction folded (shared C11.a).",
 }
+# rules added in round 8 (DESIGN.md 7.13); appended after ADDED2
+ADDED3 = {
+ "C01": "Round 8: AxisReduction folded per dimension, axis (name and matrix index) and mode (shared C11.a); extent keywords height / width / depth are resolved through the axis table (C01.g); num_voxels of an Image is read from the array, not from a stored value; the default origin is folded.",
+ "C02": "Round 8: the axis table rule (shared C01.a); arrays pre-allocated for the stack of slices take the dtype of the result, not of one operand.",
+ "C03": "Round 8: Image.append and its pre-allocation (shared C02.d).",
+ "C04": "Round 8: magnitudes compared with a tiny fixed number (scale lint extended to the linalg wrappers); metadata round trip of the images a result is built from.",
+ "C05": "Round 8: every initial Bregman shrink factor has degree -1 in the face weights (C05.g, sa/degree.py).",
+ "C06": "Round 8: work arrays of the finite-volume operators are floating point whatever the input's dtype (C06.f); extent keywords (shared C01.g through C07.d).",
+ "C07": "Round 8: Image.num_voxels / extent keywords / stateless accessors run inside C07.d.",
+ "C08": "Round 8: the solution handed back is not an attribute of the solver (C08.k); every face mass matrix FVMass can hand out is diagonal (C08.l).",
+ "C10": "Round 8: CoordinateSystem.voxel / coordinate folded (shared C01.b / C01.f); a result written back into the caller's buffer is a named contradiction; method calls on attribute-held objects are dispatched by name within a small family of definitions.",
+ "C11": "Round 8: image constructors store the array they are given; np.kron refinement is a named contradiction of C11.d.",
+ "C12": "Round 8: the correction workflow (shared C10.a); np.roll direction of the swatch positions (C12.f).",
+ "C13": "Round 8: CombinedModel.__call__ applies every stage on every path (shared C14.b); a reduction applied after the maximum dominates nothing (C13.e).",
+ "C14": "Round 8: no partial store into prescribed data that changes its type (C14.k); Masks[k] folded path-wise: the k-th mask belongs to the k-th label (C14.l).",
+ "C17": "Round 8: option dictionaries (nested ones included) belong to the caller (C17.e).",
+ "C18": "Round 8: TranslationEstimator carries no state from one call to the next (C18.f).",
+ "C19": "Round 8: CoordinateSystem.num_voxels folded on every call of the Patches constructor: each length is divided by the voxel size of its own axis, no absolute tolerance (C19.d); per-axis quantities stay per axis (C19.e).",
+ "C20": "Round 8 (level other): the layout fold also runs with one trailing payload axis; Patches / num_voxels axis pairing (shared C19.d); Image.slice folded (C20.c).",
+}
 GENERIC2 = " For every property: no default-argument object is modified in place, and optional parameters (default None) of the anchored modules are compared with None, never tested by truth value."
 
 NOT_YET = {}
@@ -212,7 +232,7 @@ def main():
         pid = p["id"]
         if pid in CLAIMED:
             cat, tech, text, note = CLAIMED[pid]
-            text = text + (" " + ADDED[pid] if pid in ADDED else "") + (" " + ADDED2[pid] if pid in ADDED2 else "") + COMMON + GENERIC2
+            text = text + (" " + ADDED[pid] if pid in ADDED else "") + (" " + ADDED2[pid] if pid in ADDED2 else "") + (" " + ADDED3[pid] if pid in ADDED3 else "") + COMMON + GENERIC2
             checks.append({
                 "property_id": pid,
                 "quick_cmd": f"./check {pid} --tier quick",
